@@ -26,6 +26,7 @@ theorem inv_step {T : Nat} {s s' : St} {o : Op} (hT : 1 ≤ T) (hi : Inv T s)
   | stall n => exact inv_stall hT hi h
   | cpause k => simp only [step, Prod.mk.injEq, and_true] at h; subst h; exact inv_subPause k hi
   | cresume k => simp only [step, Prod.mk.injEq, and_true] at h; subst h; exact inv_subResume k hi
+  | rnd ids => simp only [step, Prod.mk.injEq, and_true] at h; subst h; exact inv_draws _ hi
 
 theorem reach_inv {T : Nat} {s : St} (hT : 1 ≤ T) (hr : Reach (Cfg.real T) s) : Inv T s := by
   induction hr with
@@ -60,6 +61,17 @@ theorem mgrInput_drops (b : Bool) (i : Manager.Input) (s : St) : (mgrInput b i s
   simp only [mgrInput]
   split <;> simp
 
+@[simp] theorem sendPingResetTimer_drops (cfg : Cfg) (s : St) : (sendPingResetTimer cfg s).1.drops = s.drops := by
+  simp only [sendPingResetTimer, sendPing_eq]
+  split
+  · simp only [andThen_ok]
+    split
+    · rfl
+    · split
+      · rfl
+      · split <;> rfl
+  · rfl
+
 /-- with the generated table, no input other than `interval_elapsed` runs `signal_reconnect` -/
 theorem ttInput_drops (T : Nat) (i : TrafficTimer.Input) (hi : i ≠ .interval_elapsed) (s : St) :
     (ttInput (Cfg.real T) i s).1.drops = s.drops := by
@@ -67,8 +79,7 @@ theorem ttInput_drops (T : Nat) (i : TrafficTimer.Input) (hi : i ≠ .interval_e
   cases htr : s.traffic with
   | none => rfl
   | some st =>
-    cases st <;> cases i <;> simp [TrafficTimer.table, ttOutputs, sendPingResetTimer, sendPing] at hi ⊢
-    all_goals (split <;> (try split) <;> (try split) <;> rfl)
+    cases st <;> cases i <;> simp [TrafficTimer.table, ttOutputs] at hi ⊢
 
 theorem step_drops {T : Nat} {s : St} {o : Op} (ho : o.clock = none) :
     (step (Cfg.real T) s o).1.drops = s.drops := by
@@ -84,6 +95,7 @@ theorem step_drops {T : Nat} {s : St} {o : Op} (ho : o.clock = none) :
   | resume => rfl
   | cpause k => simp [step]
   | cresume k => simp [step]
+  | rnd ids => rfl
   | pong id =>
     simp only [step, gotPong]
     split
@@ -154,8 +166,9 @@ theorem stall_drop {T n : Nat} {s s' : St} (hi : Inv T s)
     case pos =>
       simp only [hdue, if_true, timerExpired, ttInput, real_tbl] at h
       rcases htr hl with htr | htr
-      · simp [htr, TrafficTimer.table, ttOutputs, sendPingResetTimer, sendPing, ho] at h
-        subst h
+      · simp [htr, TrafficTimer.table, ttOutputs] at h
+        obtain ⟨_, he⟩ := sprt_ok rfl h
+        subst he
         exact Or.inl rfl
       · simp [htr, TrafficTimer.table, ttOutputs, signalReconnect, hc] at h
         subst h
@@ -213,10 +226,11 @@ theorem step_pings {T : Nat} {s s' : St} {o : Op} {c : Nat} (hi : Inv T s) (hc :
       case pos =>
         simp only [hdue, if_true, timerExpired, ttInput, real_tbl] at h
         rcases htr hl with htr | htr
-        · simp [htr, TrafficTimer.table, ttOutputs, sendPingResetTimer, sendPing, ho] at h
-          subst h
+        · simp [htr, TrafficTimer.table, ttOutputs] at h
+          obtain ⟨_, he⟩ := sprt_ok rfl h
+          subst he
           intro p hp
-          simp at hp
+          simp [pinged, ho] at hp
           rcases hp with hp | hp
           · exact Or.inl hp
           · subst hp; refine Or.inr ⟨?_, rfl⟩; simp; rw [hc'] at hc; exact Option.some.inj hc
@@ -242,6 +256,7 @@ theorem step_pings {T : Nat} {s s' : St} {o : Op} {c : Nat} (hi : Inv T s) (hc :
   | resume => simp only [step, Prod.mk.injEq, and_true] at h; subst h; exact fun p hp => Or.inl hp
   | cpause k => simp only [step, Prod.mk.injEq, and_true] at h; subst h; intro p hp; simp at hp; exact Or.inl hp
   | cresume k => simp only [step, Prod.mk.injEq, and_true] at h; subst h; intro p hp; simp at hp; exact Or.inl hp
+  | rnd ids => simp only [step, Prod.mk.injEq, and_true] at h; subst h; exact fun p hp => Or.inl hp
   | pong id =>
     obtain ⟨h1, h2, h3, h4, h5, h6, h7, h8, h9, h10, h11, h12, h13⟩ := hi
     simp only [step, gotPong] at h
@@ -255,7 +270,7 @@ theorem step_pings {T : Nat} {s s' : St} {o : Op} {c : Nat} (hi : Inv T s) (hc :
     · simp at h; subst h; exact fun p hp => Or.inl hp
   | made =>
     by_cases hl : s.role = some true
-    · obtain ⟨_, _, hcn, _⟩ := made_leader hi hl h
+    · obtain ⟨_, _, hcn, _, _⟩ := made_leader hi hl h
       rw [hcn] at hc; cases hc
     · simp only [step, connMade, hl, if_false, andThen_ok] at h
       have := mgrInput_pings false .connection_made { s with nextConn := s.nextConn + 1 }
@@ -303,22 +318,34 @@ theorem step_pings {T : Nat} {s s' : St} {o : Op} {c : Nat} (hi : Inv T s) (hc :
 
 /-! ### nothing but `tick` moves the clock; the TrafficTimer never does -/
 
-@[simp] theorem sendPingResetTimer_now (cfg : Cfg) (s : St) : (sendPingResetTimer cfg s).now = s.now := by
-  simp only [sendPingResetTimer, sendPing]
+@[simp] theorem sendPingResetTimer_now (cfg : Cfg) (s : St) : (sendPingResetTimer cfg s).1.now = s.now := by
+  simp only [sendPingResetTimer, sendPing_eq]
   split
-  · rfl
-  · split
+  · simp only [andThen_ok]
+    split
     · rfl
-    · split <;> rfl
+    · split
+      · rfl
+      · split <;> rfl
+  · rfl
 
 @[simp] theorem signalReconnect_now (s : St) : (signalReconnect s).now = s.now := by
   simp only [signalReconnect]; split <;> rfl
 
 @[simp] theorem ttOutputs_now (cfg : Cfg) (outs : List TrafficTimer.Output) (s : St) :
-    (ttOutputs cfg outs s).now = s.now := by
+    (ttOutputs cfg outs s).1.now = s.now := by
   induction outs generalizing s with
   | nil => rfl
-  | cons o r ih => cases o <;> simp [ttOutputs, ih]
+  | cons o r ih =>
+    cases o
+    · simp only [ttOutputs]
+      have h1 := sendPingResetTimer_now cfg s
+      generalize sendPingResetTimer cfg s = r1 at h1
+      obtain ⟨s1, e⟩ := r1
+      cases e with
+      | none => simp only [andThen_ok]; rw [ih]; exact h1
+      | some e => exact h1
+    · simp [ttOutputs, ih]
 
 theorem ttInput_now (cfg : Cfg) (i : TrafficTimer.Input) (s : St) : (ttInput cfg i s).1.now = s.now := by
   simp only [ttInput]
@@ -330,10 +357,12 @@ theorem ttInput_now (cfg : Cfg) (i : TrafficTimer.Input) (s : St) : (ttInput cfg
 
 /-! ### silence: only the clock moves -/
 
-/-- the three phases of a silent connection `c` whose drop is due at `D` -/
+/-- the three phases of a silent connection `c` whose drop is due at `D`.  Only the first one still has a
+    Ping to send (at the expiry that takes it to `idle_traffic`), so only there does the id the random source
+    will return matter: it must not be outstanding (`freshNext`; nothing in a silent stretch changes it). -/
 def Phase (T c D : Nat) (dr : List (Nat × Nat)) (s : St) : Prop :=
   s.conn = some c ∧
-  ( (s.traffic = some .connected ∧ s.drops = dr ∧ ∃ d, s.timer = some d ∧ s.now < d ∧ d + T = D)
+  ( (s.traffic = some .connected ∧ freshNext s = true ∧ s.drops = dr ∧ ∃ d, s.timer = some d ∧ s.now < d ∧ d + T = D)
   ∨ (s.traffic = some .idle_traffic ∧ s.drops = dr ∧ s.timer = some D ∧ s.now < D)
   ∨ (s.timer = none ∧ D ≤ s.now ∧ s.drops = dr ++ [(c, D)] ∧ s.dropped = true) )
 
@@ -341,13 +370,14 @@ theorem phase_tick {T c D : Nat} {dr : List (Nat × Nat)} {s : St} (hT : 1 ≤ T
     (tick (Cfg.real T) s).2 = none ∧ Phase T c D dr (tick (Cfg.real T) s).1 ∧
       (tick (Cfg.real T) s).1.now = s.now + 1 := by
   obtain ⟨hc, hp⟩ := hp
-  rcases hp with ⟨htr, hdr, d, htm, hlt, hD⟩ | ⟨htr, hdr, htm, hlt⟩ | ⟨htm, hle, hdr, hdd⟩
-  · by_cases hdue : d ≤ s.now + 1
+  rcases hp with ⟨htr, hf, hdr, d, htm, hlt, hD⟩ | ⟨htr, hdr, htm, hlt⟩ | ⟨htm, hle, hdr, hdd⟩
+  · simp at hf
+    by_cases hdue : d ≤ s.now + 1
     · have hde : d = s.now + 1 := by omega
-      simp [tick, htm, hdue, timerExpired, ttInput, htr, TrafficTimer.table, ttOutputs, sendPingResetTimer,
-        sendPing, Phase, hc, hdr]
+      simp [tick, htm, hdue, timerExpired, ttInput, htr, TrafficTimer.table, ttOutputs, sprt_none, hf, pinged,
+        Phase, hc, hdr]
       omega
-    · simp [tick, htm, hdue, Phase, hc, hdr, htr]
+    · simp [tick, htm, hdue, Phase, hc, hdr, htr, hf]
       omega
   · by_cases hdue : D ≤ s.now + 1
     · have hde : D = s.now + 1 := by omega
